@@ -1,4 +1,4 @@
 From Coq Require Import Extraction ExtrOcamlBasic List NArith.
 From BioVerif Require Import Lib.Conv Model.Ifa.
 Extraction Language OCaml.
-Extraction "c33_model.ml" conv_anchor init step sends_hellos can_form_adjacency.
+Extraction "c33_model.ml" conv_anchor init step head_discipline sends_hellos can_form_adjacency.
